@@ -205,7 +205,7 @@ SPEC = {
     "finding_key": finding_key,
     "rule": "suite c10: every ordered pair of the combinators And/Or/Xor/Not/cypher.NewNegation/NewDisjunction/NewParenthetical (precedence-adjacent "
             "nestings, 3 positions each), every listed string/float/int literal as a bare operand, then random terms over the exported constructors of "
-            "package query (depth 1..5, smallest first; 1500 quick, 2 x 12000 thorough; splitmix64(VERIF_SEED)) wrapped in Returning/OrderBy/Limit/Offset/"
+            "package query (depth 1..5, smallest first; 1500 quick, 2 x 30000 thorough; splitmix64(VERIF_SEED)) wrapped in Returning/OrderBy/Limit/Offset/"
             "Update/Delete; suite rwc10: every Cypher text of the repository corpora through parse -> format.RegularQuery -> re-parse. "
             "non-trivial = a term nesting >= 2 combinators that was rendered and re-parsed, or a corpus query that was compared; distinct = distinct op lines",
     "expected_branches": ["rendered", "builder_path_rendered", "gen.xor", "gen.kind_all_of", "gen.float_literal", "gen.string_literal",
